@@ -5,11 +5,15 @@
        upstream components answered earlier in the same tick, whatever the order of the answers;
    (3) across ticks (Model/Component.v): the device component's cumulative inputs hold, per port,
        the latest value ever received.
-   PARTIAL: that (1)-(3) compose through system-simulation boundaries (external / expose pseudo
-   components of Model/Sim.v) is not proved; it is decided per run by the Coq-defined oracle
-   [latest_ok] (Oracle/SimOracle.v, code 81) on the flattened wiring of every generated nesting.
-   Property theorems only. *)
-From TV Require Import Base Model.Wiring Model.Ticker Model.Component Proofs.WiringP Proofs.TickerP Proofs.FlattenP.
+   (4) composed, on the whole-simulation model (Model/Sim.v) for a flat simulation, along any
+       multi-tick history with callbacks and interrupts at any speed: after every tick, and in every
+       state the master reaches, each wired input port holds the value its source reported last;
+       every update is handed exactly those inputs ([C03_sim_update_latest], [C03_sim_run_latest]).
+   PARTIAL: the same through system-simulation boundaries (external / expose pseudo components) is
+   not proved; it is decided per run by the Coq-defined oracle [latest_ok] (Oracle/SimOracle.v,
+   code 81) on the flattened wiring of every generated nesting.  Property theorems only. *)
+From TV Require Import Base Model.Wiring Model.Ticker Model.Component Model.Sim Proofs.WiringP Proofs.TickerP Proofs.FlattenP
+  Proofs.SimP Proofs.LatestP.
 Open Scope Z_scope.
 
 Theorem C03_route_exact : forall (conns : list conn) src (ch : list (port * Z)) ic ip v,
@@ -45,6 +49,36 @@ Proof.
   intros h i inp ch q H. rewrite (run_dc_latest h dc_init i inp ch q H).
   destruct (last_write q _); reflexivity.
 Qed.
+
+(* a flat level in topological order ([flat_wf]: only devices, unique names, single-source input
+   ports, wires between listed components, every source listed before its sink), devices whose
+   reports have unique port names.  If before a tick every wire carries its source's latest report,
+   then so it does after the tick, and every device updated in the tick was handed, on each wired
+   input port, the value its source reported last (possibly earlier in this very tick) *)
+Theorem C03_sim_update_latest : forall cfg devf inner lv time roots ext s,
+  flat_wf (level_of cfg lv) ->
+  (forall c n t i, NoDup (keys (fst (devf c n t i)))) ->
+  ~ In ext_id roots -> ~ In exp_id roots ->
+  LATEST (l_conns (level_of cfg lv)) s ->
+  let '(s2, _, ob) := tick_with cfg devf inner lv time roots ext s in
+  LATEST (l_conns (level_of cfg lv)) s2 /\
+  forall o, In o ob -> forall u p q, In (u, p, obs_comp o, q) (l_conns (level_of cfg lv)) ->
+    forall v, lookup p (d_last (dcs s2 u)) = Some v -> lookup q (snd o) = Some v.
+Proof.
+  intros cfg devf inner lv time roots ext s Hwf Hdev H1 H2 HL.
+  pose proof (tick_latest cfg devf inner lv time roots ext s Hwf Hdev H1 H2 HL) as H.
+  destruct (tick_with cfg devf inner lv time roots ext s) as [[s2 out] ob]. destruct H as [HL2 Ho].
+  split; [exact HL2|]. intros o Hi u p q Hk v Hl. rewrite (Ho o Hi). apply (HL2 u p (obs_comp o) q Hk v Hl).
+Qed.
+
+(* every state the master model reaches -- any speed, any number of ticks, any interrupts of its
+   devices -- has every wire carrying the latest report of its source *)
+Theorem C03_sim_run_latest : forall cfg devf num den fuel steps initial stim t_end,
+  flat_wf (level_of cfg top) ->
+  (forall c n t i, NoDup (keys (fst (devf c n t i)))) ->
+  flat_stim stim ->
+  LATEST (l_conns (level_of cfg top)) (m_s (simulate_full cfg devf num den fuel steps initial [] stim t_end)).
+Proof. intros cfg devf num den fuel steps initial stim t_end Hwf Hdev. apply simulate_latest; assumption. Qed.
 
 Example C03_example :
   map fst (run_dc dc_init [([(1%positive, 5)], []); ([(2%positive, 7)], []); ([(1%positive, 6)], [])])
